@@ -465,11 +465,16 @@ def record_sig_spends(run: Run, n: int) -> list[dict[str, Any]]:
     patterns = ["all valid", "one empty", "last empty", "first empty", "reversed", "one wrong message", "one high s", "hash type 0", "one padded r", "all empty", "wrong key"]
     cells = [(pt_, tl, mu) for pt_ in patterns for tl in (b"", b"\x91") for mu in (False, True)]
     r.shuffle(cells)
-    for it in range(n):
-        pattern, tail, multi = cells[it % len(cells)]
+    # the public-key encoding rules, cell by cell: every key form x every wrapping x the four settings of (STRICTENC, WITNESS_PUBKEYTYPE) x a valid
+    # signature or an empty one under OP_NOT (the two ways a wrongly tolerated key shows)
+    key_family = [(form, wrap_, se, wp, pat) for form in "cuhxslte" for wrap_ in ("bare", "p2sh", "p2wsh", "p2sh-p2wsh") for se in (False, True) for wp in (False, True)
+                  for pat in ("all valid", "all empty")]
+    for it in range(n + len(key_family)):
+        fam = key_family[it - n] if it >= n else None
+        pattern, tail, multi = cells[it % len(cells)] if fam is None else (fam[4], b"\x91" if fam[4] == "all empty" else b"", False)
         nk = r.choice([1, 1, 2, 3]) if multi else 1
         ds = [r.randrange(1, N_) for _ in range(nk)]
-        forms = [r.choice("cccccuuhhxslte") for _ in range(nk)]
+        forms = [r.choice("cccccuuhhxslte") for _ in range(nk)] if fam is None else [fam[0]]
         keys = [key_bytes(d, f) for d, f in zip(ds, forms)]
         m = r.randint(1, nk) if multi else 1
         # (tail = OP_NOT: the script survives a false)
@@ -477,7 +482,7 @@ def record_sig_spends(run: Run, n: int) -> list[dict[str, Any]]:
             script = bytes([0x50 + m]) + b"".join(push(k) for k in keys) + bytes([0x50 + nk]) + b"\xae" + tail
         else:
             script = push(keys[0]) + b"\xac" + tail
-        wrap = r.choice(["bare", "p2sh", "p2wsh", "p2sh-p2wsh"])
+        wrap = r.choice(["bare", "p2sh", "p2wsh", "p2sh-p2wsh"]) if fam is None else fam[1]
         if wrap == "bare":
             spk = script
         elif wrap == "p2sh":
@@ -544,6 +549,8 @@ def record_sig_spends(run: Run, n: int) -> list[dict[str, Any]]:
             tx.vin[0].script_witness = Witness([*elems, script])
         ALL = ["P2SH", "DERSIG", "STRICTENC", "NULLDUMMY", "NULLFAIL", "LOW_S", "WITNESS", "WITNESS_PUBKEYTYPE", "CLEANSTACK", "MINIMALDATA", "SIGPUSHONLY", "CONST_SCRIPTCODE"]
         flags = consistent({f for f in ALL if r.random() < 0.6} | ({"P2SH"} if "p2sh" in wrap else set()) | ({"WITNESS", "P2SH"} if "wsh" in wrap else set()))
+        if fam is not None:
+            flags = consistent((set(flags) - {"STRICTENC", "WITNESS_PUBKEYTYPE", "NULLFAIL", "SIGPUSHONLY", "CLEANSTACK"}) | ({"STRICTENC"} if fam[2] else set()) | ({"WITNESS_PUBKEYTYPE"} if fam[3] else set()))
         try:
             verify_input([prev], tx, 0, flags)
             ok: Any = True
@@ -553,6 +560,123 @@ def record_sig_spends(run: Run, n: int) -> list[dict[str, Any]]:
             ok = f"foreign {type(e).__name__}: {e}"[:120]
         evs.append({"op": "verify", "tx": tx.serialize(include_witness=True, check_validity=False).hex(), "prevouts": [{"value": nat(amount), "spk": spk.hex()}], "idx": 0, "flags": flags, "ok": ok,
                     "kind": f"{'multisig ' + str(m) + '-of-' + str(nk) if multi else 'checksig'} {wrap} {pattern} keys {''.join(forms)}{' NOT' if tail else ''}"})
+    return evs
+
+
+def record_tapscript_sig_spends(run: Run, n: int) -> list[dict[str, Any]]:
+    """Taproot script-path spends of leaves made of signature checks: <key> CHECKSIG / CHECKSIGVERIFY / CHECKSIGADD over keys of every size class (32 bytes with
+    a known private key, 33 / 1 / 20 bytes = an unknown key version, empty), signatures in every state, enough checks to cross the BIP342 validation-weight budget,
+    OP_SUCCESSx and oversized pushes placed before and after each other, one or two leaves in the tree, random consistent flags."""
+    from btclib.curves import mult
+    from btclib.ecc import ssa
+    from btclib.exceptions import BTClibException
+    from btclib.script import sig_hash, taproot
+    from btclib.script.engine import verify_input
+    from btclib.script.script_pub_key import ScriptPubKey
+    from btclib.script.witness import Witness
+    from btclib.tx import OutPoint, Tx, TxIn, TxOut
+
+    r = random.Random(run.seed + 13)
+    N_ = 0xFFFFFFFFFFFFFFFFFFFFFFFFFFFFFFFEBAAEDCE6AF48A03BBFD25E8CD0364141
+    evs = []
+
+    def push(b: bytes) -> bytes:
+        return b"\x00" if not b else bytes([len(b)]) + b if len(b) <= 75 else b"\x4c" + bytes([len(b)]) + b if len(b) <= 255 else b"\x4d" + len(b).to_bytes(2, "little") + b
+
+    decors = ["none", "none", "none", "bigpush drop", "bigpush then success", "success then bigpush", "truncated push then success", "success in untaken branch", "success after the checks", "push 520", "push 521"]
+    key_kinds = ["x32", "x32", "x32", "u33", "u1", "u20", "e"]
+    states = ["valid", "valid", "empty", "wrong", "valid65", "one byte", "64 zero", "66 bytes"]
+    cells = [(dc, kk, st) for dc in decors for kk in key_kinds[2:] for st in states[1:]]
+    r.shuffle(cells)
+    # the validation-weight budget (50 + the witness size, 50 a check with a non-empty signature): one-byte signatures under keys of an unknown version
+    # pass at no cost to the witness, so a run of them crosses the budget at a known count -- every count on both sides of it, for every key size
+    budget_family = [(kk, m, sty) for kk in ("u1", "u33", "u20") for m in range(1, 8) for sty in ("add", "verify-chain")]
+    for it in range(n + len(budget_family)):
+        if it < len(budget_family):
+            kk0, nchecks, style = budget_family[it]
+            decor, st0 = "none", "one byte"
+            kinds, sts = [kk0] * nchecks, ["one byte"] * nchecks
+        else:
+            decor, kk0, st0 = cells[it % len(cells)]
+            nchecks = r.choice([1, 1, 2, 3, 4, 5, 6, 8]) if kk0 in ("u33", "u1", "u20") else r.choice([1, 2, 3])
+            style = r.choice(["add", "add", "verify-chain", "single"])
+            if style == "single":
+                nchecks = 1
+            kinds = [kk0] + [r.choice(key_kinds) if kk0 == "x32" else kk0 if r.random() < 0.8 else r.choice(key_kinds) for _ in range(nchecks - 1)]
+            sts = [st0] + [r.choice(states) for _ in range(nchecks - 1)]
+        ds = [r.randrange(1, N_) for _ in range(nchecks)]
+        keys = []
+        for d, kk in zip(ds, kinds):
+            x = mult(d)[0].to_bytes(32, "big")
+            keys.append({"x32": x, "u33": b"\x02" + x, "u1": b"\x42", "u20": x[:20], "e": b""}[kk])
+        nonempty = sum(1 for st in sts if st != "empty")
+        target = nonempty if it < len(budget_family) or r.random() < 0.7 else r.choice([0, nonempty + 1, max(0, nonempty - 1)])
+        if style == "add":
+            body = b"\x00" + b"".join(push(k) + b"\xba" for k in keys) + (bytes([0x50 + target]) if 1 <= target <= 16 else b"\x00") + b"\x9c"
+        elif style == "verify-chain":
+            body = b"".join(push(k) + b"\xad" for k in keys[:-1]) + push(keys[-1]) + b"\xac"
+        else:
+            body = push(keys[0]) + b"\xac" + (b"\x91" if r.random() < 0.4 else b"")
+        big = push(bytes(521))
+        script = {"none": body, "bigpush drop": big + b"\x75" + body, "bigpush then success": big + b"\x75" + body + b"\x50", "success then bigpush": b"\x50" + big + b"\x75" + body,
+                  "truncated push then success": body + b"\x50\x4d\xff\xff\x00", "success in untaken branch": b"\x00\x63\x7e\x68" + body, "success after the checks": body + b"\x62",
+                  "push 520": push(bytes(520)) + b"\x75" + body, "push 521": big + b"\x75" + body}[decor]
+        if decor == "truncated push then success":
+            script = b"\x4d\xff\xff\x00" + b"\x50" if r.random() < 0.5 else body + b"\x50" + b"\x4d\xff\xff\x00"
+        internal = mult(r.randrange(1, N_))[0].to_bytes(32, "big")
+        other = (0xC0, ["OP_1"])
+        # the leaf as raw bytes: taproot.tree_helper takes a ScriptList, so the tree is assembled by hand from the hashes
+        lh = taproot.leaf_hash(0xC0, script)
+        two = r.random() < 0.5
+        if two:
+            oh = taproot.tree_helper([other])[1]
+            a_, b_ = sorted([lh, oh])
+            from btclib.hashes import tagged_hash
+
+            root, path = tagged_hash(b"TapBranch", a_ + b_), oh
+        else:
+            root, path = lh, b""
+        outkey, parity = taproot.output_pubkey_from_merkle_root(internal, root)
+        control = bytes([0xC0 + parity]) + internal + path
+        spk = b"\x51\x20" + outkey
+        amount = 90_000
+        prev = TxOut(amount, ScriptPubKey(spk, check_validity=False), check_validity=False)
+        tx = Tx(2, 0, [TxIn(OutPoint(b"\x31" * 32, 1), b"", 0xFFFFFFFD, check_validity=False)], [TxOut(80_000, ScriptPubKey(b"\x51", check_validity=False), check_validity=False)], check_validity=False)
+        ext = lh + b"\x00" + b"\xff\xff\xff\xff"
+
+        def sign(d: int, st: str) -> bytes:
+            if st == "empty":
+                return b""
+            if st == "one byte":
+                return b"\x01"
+            if st == "64 zero":
+                return bytes(64)
+            ht = 1 if st == "valid65" else 0
+            try:
+                msg = sig_hash.taproot(tx, 0, [prev], ht, 1, b"", ext)
+            except BTClibException:
+                return bytes(64)
+            sg = ssa.sign_(msg, d, bytes(32)).serialize()
+            if st == "wrong":
+                sg = sg[:40] + bytes([sg[40] ^ 1]) + sg[41:]
+            if st == "66 bytes":
+                return sg + b"\x01\x00"
+            return sg + (b"\x01" if ht else b"")
+
+        sigs = [sign(d, st) for d, st in zip(ds, sts)]
+        stack = sigs[::-1] if style != "verify-chain" else sigs[::-1]
+        tx.vin[0].script_witness = Witness([*stack, script, control])
+        ALL = ["P2SH", "WITNESS", "TAPROOT", "NULLFAIL", "CLEANSTACK", "MINIMALIF", "DISCOURAGE_UPGRADABLE_PUBKEYTYPE", "DISCOURAGE_OP_SUCCESS", "DISCOURAGE_UPGRADABLE_TAPROOT_VERSION", "STRICTENC", "MINIMALDATA"]
+        flags = consistent({"TAPROOT", "WITNESS", "P2SH"} | {f for f in ALL if r.random() < 0.4 and (it >= len(budget_family) or f != "DISCOURAGE_UPGRADABLE_PUBKEYTYPE")}) if it % 7 or it < len(budget_family) else consistent({f for f in ALL if r.random() < 0.5})
+        try:
+            verify_input([prev], tx, 0, flags)
+            ok: Any = True
+        except BTClibException:
+            ok = False
+        except Exception as e:  # noqa: BLE001
+            ok = f"foreign {type(e).__name__}: {e}"[:120]
+        evs.append({"op": "verify", "tx": tx.serialize(include_witness=True, check_validity=False).hex(), "prevouts": [{"value": nat(amount), "spk": spk.hex()}], "idx": 0, "flags": flags, "ok": ok,
+                    "kind": f"tapscript {style} x{nchecks} keys {'/'.join(kinds)} sigs {'/'.join(sts)} {decor}{' two leaves' if two else ''}"})
     return evs
 
 
@@ -598,6 +722,7 @@ def check(run: Run) -> None:
             ok = f"foreign {type(ex).__name__}"
         sig_evs.append({**{k: v for k, v in e.items() if k in keep}, "ok": ok, "kind": f"core vector: {mta[4] if len(mta) > 4 else mta[:2]}"})
     sig_evs += record_sig_spends(run, 1500 if thorough else 300)
+    sig_evs += record_tapscript_sig_spends(run, 1200 if thorough else 300)
     for e in sig_evs:
         if isinstance(e["ok"], str):
             run.violation(f"script|verify|foreign|{e['ok'].split(':')[0]}", f"verify_input ({e.get('kind')}) raised {e['ok']}", {"event": e})
